@@ -67,7 +67,7 @@ def run(ck, F, tier):
     if mout == want_out: ck.ok('M', 'output of group k: %s' % show(want_out), where_of(b, mb))
     else: ck.violation('M', 'M : yuv420_to_rgba : whole-group output', where_of(b, mb), 'the whole-group call writes %s; expected %s' % (show(mout), show(want_out)))
     lk = N.loops.get(k[1])
-    if lk is None or lk.kind != 'seq' or show(lk.lo) != '0':
+    if lk is None or lk.kind not in ('seq', 'count') or show(lk.lo) != '0':
         ck.violation('M', 'M : yuv420_to_rgba : group loop', where_of(b, mb), 'the group index does not run over the zipped chunk sequences')
     # R: remainder
     ck.rule('R', 'remainder (iff width mod 4 != 0): for x in width - width mod 4 .. width: y4[x mod 4] = yrow[x], cb2[(x mod 4)/2] = cbrow[x/2], cr2 likewise, with whole rows '
